@@ -34,6 +34,7 @@ type kvAPI interface {
 	Values() []int
 	Range(func(k, v int) bool)
 	All(func(k, v int) bool)
+	AllSeq() func(func(k, v int) bool)
 	GetWithMap(ks []int, ballast int) []int
 	GetWithLock(int, func(int))
 	MapMove(k0, k1 int) (int, bool)
@@ -100,6 +101,19 @@ func (a *kvOf[K, V]) All(f func(k, v int) bool) {
 	for k, v := range a.m.All() {
 		if !f(a.dk(k), a.dv(v)) {
 			break
+		}
+	}
+}
+
+// AllSeq obtains the All() sequence now; the returned function iterates it (later, any number
+// of times): a sequence is a value a caller may keep.
+func (a *kvOf[K, V]) AllSeq() func(func(k, v int) bool) {
+	seq := a.m.All()
+	return func(f func(k, v int) bool) {
+		for k, v := range seq {
+			if !f(a.dk(k), a.dv(v)) {
+				break
+			}
 		}
 	}
 }
@@ -294,6 +308,8 @@ type inst struct {
 	others []kvAPI
 	twN    [16]int
 	twErr  [16]string
+	// All() sequences obtained before the map received its initial contents, one per thread
+	early [16]func(func(k, v int) bool)
 }
 
 func (x *inst) Do(t int, op sim.Op) sim.Rec {
@@ -349,7 +365,11 @@ func (x *inst) Do(t int, op sim.Op) sim.Rec {
 		r.OK = true
 	case "All":
 		n := 0
-		x.m.All(func(k, v int) bool {
+		all := x.m.All
+		if op.S == "early" && t < len(x.early) && x.early[t] != nil {
+			all = x.early[t]
+		}
+		all(func(k, v int) bool {
 			r.Ks = append(r.Ks, k)
 			r.Vs = append(r.Vs, v)
 			n++
@@ -446,6 +466,10 @@ func gen(r *sim.Rng, tier string) *sim.Case {
 	if r.Pct(8) {
 		c.Params["twin"] = 1 // a second map is used alternately by every thread
 	}
+	early := r.Pct(10)
+	if early {
+		c.Params["early"] = 1 // every thread holds an All() sequence obtained before the map was filled
+	}
 	if r.N(1000) < 4 {
 		c.Params["warm"] = 1 + r.N(12) // a long earlier life (tens of thousands of keys stored and deleted)
 	}
@@ -532,6 +556,9 @@ func gen(r *sim.Rng, tier string) *sim.Case {
 				if r.Pct(15) {
 					op.D = r.N(nKeys + 1)
 				}
+				if op.Op == "All" && early && r.Pct(60) {
+					op.S = "early" // iterate the sequence obtained when the map was still empty
+				}
 			}
 			prog = append(prog, op)
 		}
@@ -616,6 +643,11 @@ func build(c *sim.Case) enga.Instance {
 	}
 	if c.P("twin") == 1 && c.P("elem") != 4 {
 		x.tw = newKV(c.P("elem"), 0)
+	}
+	if c.P("early") == 1 {
+		for t := range x.early {
+			x.early[t] = x.m.AllSeq()
+		}
 	}
 	for k := 0; k < nKeys; k++ {
 		present := false
@@ -807,6 +839,15 @@ func check(run *enga.Run) *sim.Violation {
 	x := run.Inst.(*inst)
 	if c.P("warm") > 0 {
 		run.Out.Probes["map_with_a_long_earlier_life"]++
+	}
+	if c.P("early") == 1 {
+		for t, prog := range c.Programs {
+			for i, op := range prog {
+				if op.Op == "All" && op.S == "early" && i < len(recs[t]) && recs[t][i].Done {
+					run.Out.Probes["all_sequence_obtained_on_the_empty_map_iterated_later"]++
+				}
+			}
+		}
 	}
 	if x.tw != nil {
 		run.Out.Probes["twin_instance_used_alternately"]++
